@@ -1,5 +1,6 @@
 import EchoModel.Router
 import EchoModel.RouterSpec
+import EchoModel.RouterInv
 import EchoProofs.Spec.Fuel
 /-!
 # The residual set represented by a radix tree (towards the L3 → L1 refinement)
@@ -12,43 +13,6 @@ search (`deriv`, `ends`) act on these sets: following a compressed edge byte by 
 -/
 namespace Router.Tree
 open Router Router.Spec
-
-/-- the L1 entry of a route record stored at a node -/
-def entryOf (method : Str) (rm : RouteMethod) : Entry :=
-  ⟨(norm rm.ppath).1, method, rm.ppath, rm.pnames, rm.hid⟩
-
-/-- entries of the records of one node: its methods and its not-found record -/
-def ownEntries (ms : List (Str × RouteMethod)) (nf : Option RouteMethod) : List Entry :=
-  ms.map (fun x => entryOf x.1 x.2) ++ (match nf with | some rm => [entryOf routeNotFound rm] | none => [])
-
-def lits (s : Str) : List Tok := s.map Tok.lit
-
-def prepend (ts : List Tok) (r : R) : R := r.map fun x => (ts ++ x.1, x.2)
-
-/-- first tokens contributed by a node of the given kind with the given prefix -/
-def headToks : Kind → Str → List Tok
-  | .static, pre => lits pre
-  | .param, _ => [.param]
-  | .any, _ => [.any]
-
-mutual
-/-- residuals of the records in the subtree of a node, relative to the point after its prefix -/
-def below : Node → R
-  | .mk _ _ ms nf _ _ st pa an =>
-    (ownEntries ms nf).map (fun e => ([], e)) ++ belowList st ++ belowOpt pa ++ belowOpt an
-def belowList : List Node → R
-  | [] => []
-  | c :: cs => resid c ++ belowList cs
-def belowOpt : Option Node → R
-  | none => []
-  | some c => resid c
-/-- residuals relative to the point before the node's own prefix -/
-def resid : Node → R
-  | .mk k pre ms nf op pc st pa an => prepend (headToks k pre) (below (.mk k pre ms nf op pc st pa an))
-end
-
-/-- residuals when only the piece `s` of the node's (static) prefix is still to be read -/
-def residFrom (s : Str) (n : Node) : R := prepend (lits s) (below n)
 
 theorem prepend_nil (r : R) : prepend [] r = r := by
   unfold prepend
